@@ -1,4 +1,4 @@
-package main
+package hz
 
 import (
 	"fmt"
@@ -20,10 +20,10 @@ import (
 )
 
 // fakeT satisfies common.T for the mock node.
-type fakeT struct{ dirs []string }
+type FakeT struct{ dirs []string }
 
-func (t *fakeT) Fatalf(format string, args ...interface{}) { panic(fmt.Sprintf(format, args...)) }
-func (t *fakeT) TempDir() string {
+func (t *FakeT) Fatalf(format string, args ...interface{}) { panic(fmt.Sprintf(format, args...)) }
+func (t *FakeT) TempDir() string {
 	d, err := os.MkdirTemp("", "zh")
 	if err != nil {
 		panic(err)
@@ -31,7 +31,7 @@ func (t *fakeT) TempDir() string {
 	t.dirs = append(t.dirs, d)
 	return d
 }
-func (t *fakeT) Cleanup() {
+func (t *FakeT) Cleanup() {
 	for _, d := range t.dirs {
 		os.RemoveAll(d)
 	}
@@ -39,27 +39,27 @@ func (t *fakeT) Cleanup() {
 
 // Node is a real in-process node (real chain, consensus, verifier, vm, pillars) on the mock genesis.
 type Node struct {
-	t  *fakeT
-	z  mock.MockZenon
-	ch chain.Chain
-	cs consensus.Consensus
-	sv *vm.Supervisor
+	T  *FakeT
+	Z  mock.MockZenon
+	Ch chain.Chain
+	Cs consensus.Consensus
+	Sv *vm.Supervisor
 }
 
 func NewNode() *Node {
 	// the property statements are for the enforced regime (C03 names the enforcement height)
 	verifier.ReceiverMismatchEnforcementHeight = 0
-	t := &fakeT{}
+	t := &FakeT{}
 	z := mock.NewMockZenon(t)
-	quiet()
-	return &Node{t: t, z: z, ch: z.Chain(), cs: z.Consensus(), sv: vm.NewSupervisor(z.Chain(), z.Consensus())}
+	Quiet()
+	return &Node{T: t, Z: z, Ch: z.Chain(), Cs: z.Consensus(), Sv: vm.NewSupervisor(z.Chain(), z.Consensus())}
 }
 func (n *Node) Stop() {
-	n.z.StopPanic()
-	n.t.Cleanup()
+	n.Z.StopPanic()
+	n.T.Cleanup()
 }
 
-func keyOf(addr types.Address) *wallet.KeyPair {
+func KeyOf(addr types.Address) *wallet.KeyPair {
 	for _, kp := range g.AllKeyPairs {
 		if kp.Address == addr {
 			return kp
@@ -70,7 +70,7 @@ func keyOf(addr types.Address) *wallet.KeyPair {
 
 // Fill sets the fields the supervisor's setAll would set, without touching plasma fields.
 func (n *Node) Fill(b *nom.AccountBlock) {
-	st := n.ch.GetFrontierMomentumStore()
+	st := n.Ch.GetFrontierMomentumStore()
 	fm, err := st.GetFrontierMomentum()
 	if err != nil {
 		panic(err)
@@ -79,11 +79,11 @@ func (n *Node) Fill(b *nom.AccountBlock) {
 		b.MomentumAcknowledged = fm.Identifier()
 	}
 	if b.PreviousHash == types.ZeroHash && b.Height == 0 {
-		fr := n.ch.GetFrontierAccountStore(b.Address).Identifier()
+		fr := n.Ch.GetFrontierAccountStore(b.Address).Identifier()
 		b.PreviousHash = fr.Hash
 		b.Height = fr.Height + 1
 	}
-	b.ChainIdentifier = n.ch.ChainIdentifier()
+	b.ChainIdentifier = n.Ch.ChainIdentifier()
 	if b.Version == 0 {
 		b.Version = 1
 	}
@@ -100,23 +100,23 @@ func Sign(b *nom.AccountBlock, kp *wallet.KeyPair) {
 
 // Apply runs full verification + vm on a block (no insertion).
 func (n *Node) Apply(b *nom.AccountBlock) (*nom.AccountBlockTransaction, error) {
-	return n.sv.ApplyBlock(b)
+	return n.Sv.ApplyBlock(b)
 }
 
 // Insert adds an applied transaction to the node's pool.
 func (n *Node) Insert(tx *nom.AccountBlockTransaction) error {
-	ins := n.ch.AcquireInsert("zharness")
+	ins := n.Ch.AcquireInsert("zharness")
 	defer ins.Unlock()
-	return n.ch.AddAccountBlockTransaction(ins, tx)
+	return n.Ch.AddAccountBlockTransaction(ins, tx)
 }
 
-func (n *Node) Momentum() { n.z.InsertNewMomentum() }
+func (n *Node) Momentum() { n.Z.InsertNewMomentum() }
 
 func (n *Node) FrontierHeight() uint64 {
-	return n.ch.GetFrontierMomentumStore().Identifier().Height
+	return n.Ch.GetFrontierMomentumStore().Identifier().Height
 }
 
-func quiet() {
+func Quiet() {
 	for _, l := range mock.AllLoggers {
 		l.SetHandler(log15.DiscardHandler())
 	}
